@@ -668,7 +668,7 @@ class Canon:
             if getter is not None and getter != self.fi.name:
                 return ("a", base, getter)
         # a property defined as the negation of another one (is_soft == not is_hard) is written with that other one
-        if self.model is not None and base != ("self",):
+        if self.model is not None:
             twin = self.model.negated_twin(name)
             if twin is not None:
                 return mk_not(("a", base, twin))
@@ -1195,6 +1195,39 @@ def _case_test(c):
             return None
         return parts[0][0], frozenset().union(*[p_[1] for p_ in parts]), want_pos
     return None
+
+
+def _hoist_asserts(block: tuple) -> tuple:
+    """conditional assertions are implications: ``if g: assert A; rest`` is ``assert (not g) or A`` ; ``if g: rest`` (the assertions
+    that open an arm, the test without effects)"""
+    out = []
+    for st in block:
+        if isinstance(st, tuple) and st:
+            if st[0] == "if" and len(st) == 4:
+                a, b = _hoist_asserts(st[2]), _hoist_asserts(st[3])
+                if not _has_effectful_call(st[1]):
+                    ka = 0
+                    while ka < len(a) and isinstance(a[ka], tuple) and a[ka][:1] == ("assert",) and len(a[ka]) == 2:
+                        ka += 1
+                    kb = 0
+                    while kb < len(b) and isinstance(b[kb], tuple) and b[kb][:1] == ("assert",) and len(b[kb]) == 2:
+                        kb += 1
+                    if ka or kb:
+                        for x in a[:ka]:
+                            out.append(("assert", mk_or([mk_not(st[1]), x[1]])))
+                        for x in b[:kb]:
+                            out.append(("assert", mk_or([st[1], x[1]])))
+                        a, b = a[ka:], b[kb:]
+                        if a or b:
+                            out.append(_flat_if(mk_if(st[1], tuple(a), tuple(b))))
+                        continue
+                st = ("if", st[1], a, b)
+            elif st[0] == "for" and len(st) == 5:
+                st = ("for", st[1], st[2], _hoist_asserts(st[3]), _hoist_asserts(st[4]))
+            elif st[0] == "while" and len(st) == 4:
+                st = ("while", st[1], _hoist_asserts(st[2]), _hoist_asserts(st[3]))
+        out.append(st)
+    return tuple(out)
 
 
 def _switch_normal_form(block: tuple) -> tuple:
@@ -2068,7 +2101,7 @@ class Normalizer:
             nums[0] += 1
             return ("v", 500 + nums[0])
         def shape_passes(b):
-            return _switch_normal_form(_index_loops(_param_versions(_if_convert(_ret_peephole(_query_loops(_pair_iteration(b)))))))
+            return _switch_normal_form(_hoist_asserts(_index_loops(_param_versions(_if_convert(_ret_peephole(_query_loops(_pair_iteration(b))))))))
 
         def look_through(block):
             defs = single_defs(block, keep_identity)
@@ -2081,7 +2114,7 @@ class Normalizer:
                 if fused != block:
                     block = _index_loops(fused)
                 defs = single_defs(block, keep_identity)
-            return _switch_normal_form(block)
+            return _switch_normal_form(_hoist_asserts(block))
         # 1. locals that only name a value are looked through first (so that it does not matter whether a comprehension sat in a
         #    local of its own), 2. then the comprehensions that are assigned / returned / put into a record become collecting loops,
         #    3. and what that uncovers is looked through again
